@@ -46,7 +46,7 @@ type Params struct {
 	ApplyDelayMs     int    `json:"apply_delay_ms,omitempty"`
 	PersistDelayMs   int    `json:"persist_delay_ms,omitempty"`
 	RestoreDelayMs   int    `json:"restore_delay_ms,omitempty"`
-	StoreDelayMs     int    `json:"store_delay_ms,omitempty"` // every StoreLogs takes this long (slow disk)
+	StoreDelayMs     int    `json:"store_delay_ms,omitempty"`  // every StoreLogs takes this long (slow disk)
 	StableDelayMs    int    `json:"stable_delay_ms,omitempty"` // every stable-store write (term, vote) takes this long
 	DelayEvery       uint64 `json:"delay_every,omitempty"`
 }
